@@ -341,6 +341,26 @@ func (f *Facts) add(l Lit) bool {
 						}
 					}
 				}
+				// transitivity, one step: a == b with b == c known ⇒ a == c; with b != c known ⇒ a != c
+				for k, v := range f.m {
+					o := f.atoms[k]
+					if o == nil || o.Op != "eq" || o == a || o.S == a.S {
+						continue
+					}
+					for _, pr := range [][2]*Term{{a.A, a.B}, {a.B, a.A}} {
+						x, y := pr[0], pr[1] // x == y
+						var z *Term
+						if o.A.S == y.S {
+							z = o.B
+						} else if o.B.S == y.S {
+							z = o.A
+						}
+						if z == nil || z.S == x.S {
+							continue
+						}
+						work = append(work, Lit{mkAtom("eq", x, z), v})
+					}
+				}
 				// sign transfer: a == b, b unsigned ⇒ !(a<0)
 				zero := constTerm("0")
 				if a.B.Unsigned {
@@ -367,6 +387,26 @@ func (f *Facts) add(l Lit) bool {
 			} else {
 				if a.B.K == KNil {
 					work = append(work, Lit{mkAtom("nn", a.A, nil), true})
+				}
+				// a != b with a == c known ⇒ c != b (and symmetrically)
+				for k, v := range f.m {
+					o := f.atoms[k]
+					if o == nil || o.Op != "eq" || !v || o.S == a.S {
+						continue
+					}
+					for _, pr := range [][2]*Term{{a.A, a.B}, {a.B, a.A}} {
+						x, y := pr[0], pr[1] // x != y
+						var z *Term
+						if o.A.S == x.S {
+							z = o.B
+						} else if o.B.S == x.S {
+							z = o.A
+						}
+						if z == nil || z.S == y.S {
+							continue
+						}
+						work = append(work, Lit{mkAtom("eq", z, y), false})
+					}
 				}
 				// a!=b && !(a<b) ⇒ b<a
 				l1 := mkAtom("lt", a.A, a.B)
